@@ -272,7 +272,9 @@ func zzH06_builtins() {
 		}
 		zzAssert(zzImplies(locked, same), "C06.builtin.self_locked_unchanged")
 	}
-	zzAssume(zzAnd(zzNot(frozen), c0 == 0))
-	zzAssert(k.mutateOK(), "C06.builtin.mutable_again")
+	zzAssume(c0 == 0)
+	if !frozen {
+		zzAssert(k.mutateOK(), "C06.builtin.mutable_again")
+	}
 	zzReach("end")
 }
